@@ -113,6 +113,16 @@ def run(ctx):
     distinct = set()
     dist = {}
     found_violation = False
+    reported = set()
+    raw_violation = ctx.violation
+
+    def violation_once(sig, what, name, text, **kw):
+        """one replay per signature (the first witness); later witnesses of the same kind are only counted"""
+        if sig in reported:
+            return False
+        reported.add(sig)
+        return raw_violation(sig, what, name, text, **kw)
+    ctx.violation = violation_once
 
     def save_replay(name, lines):
         return name, "\n".join(lines) + "\n"
@@ -192,7 +202,10 @@ def run(ctx):
         total += len(impl)
         kinds = Counter()
         published = {}
+        bound = set()       # kids that have a reference row according to the implementation's own answers
+        seq_names = set()   # key names drawn in this sequence (Migrate may bind them as kids)
         seq_start = 0
+        unknown_used = 0
         bind_bad = multi = hdr_bad = 0
         jwt_private = 0
         signs_ok = 0
@@ -205,17 +218,28 @@ def run(ctx):
             if "panic:" in line:
                 found_violation |= ctx.violation("C03:ks:panic", line[:200], "ks-panic.jsonl", "\n".join(ops[seq_start:i + 1]))
             if k == "reset":
-                published, seq_start = {}, i
+                published, bound, seq_names, seq_start = {}, set(), set(), i
             elif k == "new":
+                seq_names.add(op.get("keyName"))
                 m = re.match(r"new ok kid=(.*) name=\S+ ver=\S+ key=K(\d+)", line)
                 if m:
                     published[op.get("kid")] = int(m.group(2))
+                    bound.add(op.get("kid"))
             elif k in ("link", "delete"):
                 if line.endswith(" ok") or k == "delete":
                     published.pop(op.get("kid"), None)
+                if k == "link" and line.endswith(" ok"):
+                    bound.add(op.get("kid"))
+                if k == "delete":
+                    bound.discard(op.get("kid"))
             elif k == "migrate":
-                pass  # binds only kids equal to key names (uuids of orphan keys); never a kid New published
-            elif k == "sign":
+                bound |= seq_names  # binds only kids equal to key names (uuids of orphan keys); never a kid New published
+            if k in ("sign", "resolve", "decrypt", "decryptjwe") and re.match(r"\S+( \S+)? ok", line) and op.get("kid") not in bound:
+                unknown_used += 1
+                found_violation |= ctx.violation("C03:ks:%s-succeeded-for-a-kid-without-key-reference" % k,
+                                                 f"{k} for kid {op.get('kid')!r} succeeded although no New/Link/Migrate bound that kid in this history: {line[:120]}",
+                                                 "ks-unknown-kid.jsonl", "\n".join(ops[seq_start:i + 1]))
+            if k == "sign":
                 m = re.search(r" ok verifies=\[(.*?)\](.*)$", line)
                 if m:
                     signs_ok += 1
@@ -251,6 +275,7 @@ def run(ctx):
         ctx.oblige("oracle:signature-verifies-with-exactly-the-published-key(impl)", bind_bad == 0 and multi == 0,
                    f"{bind_bad} wrong key, {multi} not exactly one verifying key, of {signs_ok} signatures")
         ctx.oblige("oracle:signjws-never-emits-store-type-private-jwk(impl)", hdr_bad == 0, f"{hdr_bad}")
+        ctx.oblige("oracle:no-key-use-for-unknown-kid(impl)", unknown_used == 0, f"{unknown_used}")
         if jwt_private:
             ctx.notes.append(f"observation (not a violation of the property as stated — the key is the caller's, never a key store key): "
                              f"SignJWT has no jwk-header rule; {jwt_private} generated calls embedded a caller-supplied private JWK (model predicts the same)")
